@@ -7,6 +7,7 @@ import numpy as np
 import pandapower as pp
 from scipy.sparse import csgraph
 from vf import coqrun as cq
+from vf import c06_pfsoln as ps
 
 RULE = ("flavoured nets: plain / LV-side slack behind phase-shifting transformers with calculate_voltage_angles / several gens at one bus with binding q limits and enforce_q_lims / resistive shunts and wards; 1-3 island 20 kV nets (3-6 buses per island, radial or with 1-2 chords, the ext_grid at the first or at a random "
         "bus of its island, islands interleaved in the bus table or not) x 16 solver configurations; non-trivial = at least "
@@ -16,7 +17,13 @@ ASSUMPTIONS = ["convergence of the iterative solvers is not proved; a configurat
                "with the same calls)", "results compared within 1e-5 (gs, fdbx, fdxb and bfsw stop on a 1e-8 p.u. mismatch)"]
 TRUSTED = ["wrappers around csr_matrix and _make_bibc_bcbv installed in the harness process (no source hook)",
            "python twin of the island structure extraction (copy of the scipy calls of _make_bibc_bcbv) and of G06"]
+ASSUMPTIONS += ["pfsoln model: one generator row (the ext_grid), no FACTS rows; Ybus = Cf.T*Yf + Ct.T*Yt + diag(Ysh) is checked numerically on the real matrices; "
+                "the theorem 'single = std under the guard' assumes exact power balance at the non-slack buses (the quantitative form holds for any V)",
+                "bfsw rotation model: one island; composition of rotations = addition of angles"]
+TRUSTED += ["wrappers around _get_numba_functions (pf/run_newton_raphson_pf.py) and around _bfswpf / pfsoln in pf/run_bfswpf.py installed in the harness process",
+            "the three real pfsoln functions are called directly on short-dyadic roundings of the arrays captured from real runpp calls"]
 TOL = 1e-5
+_shift_cases = []
 CONFIGS = [dict(algorithm="nr", numba=False), dict(algorithm="nr", init="dc"), dict(algorithm="nr", init="results"),
            dict(algorithm="nr", lightsim2grid=False), dict(algorithm="nr", lightsim2grid=False, numba=False),
            dict(algorithm="iwamoto_nr"), dict(algorithm="iwamoto_nr", numba=False, init="dc"),
@@ -50,6 +57,7 @@ def _install():
             _cap["in_make"] = False
 
     m.csr_matrix, m._make_bibc_bcbv, m._c06 = csr, make, True
+    ps.install_shift_wrappers(_cap)
 
 
 def islands_of(bus, branch, G):
@@ -244,6 +252,8 @@ def shunt_net(rng):
 
 def flavoured_net(rng):
     r = rng.random()
+    if r < 0.08:
+        return ps.shiftmesh_net(rng)
     if r < 0.2:
         return shift_net(rng)
     if r < 0.4:
@@ -295,11 +305,16 @@ def _one_net(ctx, rng, k, bibc_cases, net=None, meta=None, common=None):
         _cap["on"] = False
         name = "%s/%s" % (cfg["algorithm"], ",".join("%s=%s" % kv for kv in sorted(cfg.items()) if kv[0] != "algorithm"))
         ctx.count("flavor_%s" % meta.get("flavor", "plain"))
-        g_ok, isls = True, None
+        g_ok, isls, s_ok = True, None, True
         if cfg["algorithm"] == "bfsw" and "args" in _cap:
             bus, branch, G = _cap["args"]
             isls = islands_of(bus, branch, G)
             g_ok = guard_e2e(isls)
+            sc = ps.shift_case(_cap) if cfg.get("calculate_voltage_angles") else None
+            if sc is not None:
+                s_ok = ps.guard_g06t(sc)
+                if len(_shift_cases) < ctx.n(60, 600):
+                    _shift_cases.append(dict(sc, case=case))
             if len(bibc_cases) < ctx.n(60, 600):
                 bibc_cases.append({"isls": isls, "nobus": int(bus.shape[0]), "nobranch": int(branch.shape[0]),
                                    "impl": _cap.get("bibc"), "err": type(err).__name__ + ":" + str(err)[:40] if err else None,
@@ -413,6 +428,127 @@ def _corr_roots(ctx, rng):
             ctx.disagreement("number of roots returned by numpy.roots: impl %s model %s" % (i, m), d)
 
 
+
+def _corr_shift(ctx, model=None):
+    """bfsw phase-shift post-rotation: angle(V passed to pfsoln / V returned by _bfswpf) per bus vs C06.Shift.rot_impl"""
+    if not _shift_cases:
+        return
+    if model is None:
+        model = ctx.coq_eval("c06s", "Base.QN Base.QC C06.Pfsoln C06.Shift", [ps.shift_term(sc) for sc in _shift_cases], shard=100)
+    for sc, m in zip(_shift_cases, model):
+        ctx.corr_checked += 1
+        d = {"root": sc["root"], "edges": sc["edges"], "trafos": sc["trafos"]}
+        per_bus, tree_ok, g = m
+        gp = ps.guard_g06t(sc)
+        ctx.count("shift_guard_%s" % gp)
+        if not tree_ok:
+            ctx.disagreement("the BFS branch list of the impl is not accepted as a tree by the model (tree_ok false)", d)
+        if bool(g) != gp:
+            ctx.disagreement("guard G06t: python %s Coq %s" % (gp, g), d)
+        old_differs = False
+        for b, rot, path, old in per_bus:
+            if not ps.ang_close(rot, sc["obs"][b]):
+                ctx.disagreement("rotation of bus %d: impl %.6f deg, model %.6f deg" % (b, sc["obs"][b], float(rot)), d)
+                break
+            if rot != path:
+                ctx.disagreement("model: rot_impl %s differs from path_shift %s (contradicts the theorem)" % (rot, path), d)
+                break
+            old_differs = old_differs or old is None or not ps.ang_close(old, rot)
+        else:
+            # the rule before the repair (rot_impl_old) differs exactly on the nets with a loop-closing shifting branch
+            ctx.count("shift_old_rule_%s" % ("differs" if old_differs else "same"))
+            if old_differs == gp:
+                ctx.disagreement("model: rot_impl_old %s although G06t is %s" % ("differs" if old_differs else "agrees", gp), d)
+
+
+def _corr_pfsoln(ctx, rng, with_shift=False):
+    """selection guard of _get_numba_functions and slack P/Q + branch flows of the three pfsoln variants vs C06.Pfsoln"""
+    ps.install_select_wrapper()
+    sel_terms, sel_impl, sel_desc = [], [], []
+    val_terms, val_impl, val_desc = [], [], []
+    for k in range(ctx.n(26, 300)):
+        net, feat, opts = ps.pfsoln_net(rng)
+        ps._sel["calls"] = []
+        ps._sel["on"] = True
+        try:
+            pp.runpp(net, **opts)
+        except Exception as e:
+            ctx.count("pfsoln_net_raised_" + type(e).__name__)
+            continue
+        finally:
+            ps._sel["on"] = False
+        for key, val in feat.items():
+            if val:
+                ctx.count("pfsoln_feat_" + key)
+        calls = ps._sel["calls"]
+        if not calls:
+            ctx.count("pfsoln_no_selection_call")
+            continue
+        rec = calls[-1]
+        rows = cq.lst([ps.busrow_term(0.0, 0.0, g, b) for g, b in zip(rec["gs"], rec["bs"])])
+        sel_terms.append("run_select %s %s %s %s %s" % (cq.b(rec["numba"]), cq.nat(rec["ngen"]), cq.b(rec["vdl"]), cq.b(rec["dist"]), rows))
+        sel_impl.append(ps.IMPL_NAME.get(rec["impl"], rec["impl"]))
+        sel_desc.append({"net": pp.to_json(net), "opts": opts, "ngen": rec["ngen"], "vdl": rec["vdl"], "dist": rec["dist"],
+                         "shunt": bool(np.any(rec["gs"]) or np.any(rec["bs"]))})
+        ctx.count("pfsoln_selected_" + sel_impl[-1])
+        if "arrays" not in rec or rec["ngen"] != 1 or len(val_terms) >= 3 * ctx.n(14, 200):
+            continue
+        arr = rec["arrays"]
+        err, scale = ps.ybus_structure_error(arr)
+        ctx.corr_checked += 1
+        if err > 1e-9 * max(1.0, scale):
+            ctx.disagreement("Ybus differs from Cf.T*Yf + Ct.T*Yt + diag((GS+jBS)/baseMVA) by %.3g" % err, sel_desc[-1])
+        pr = ps.rounded_problem(arr)
+        if pr is None or len(pr["ref"]) != 1:
+            continue
+        from pandapower.pypower.idx_gen import GEN_BUS
+        slack = int(pr["gen"][0, GEN_BUS].real)
+        term = ps.ppc_term(pr, slack)
+        impl = ps.call_variants(pr, rec["vdl"])
+        # the property on the real (unrounded) solution: under the guard all three variants agree within the solver tolerance
+        guard = rec["ngen"] == 1 and not rec["vdl"] and not rec["dist"] and not sel_desc[-1]["shunt"]
+        real = ps.call_variants(dict(pr, bus=arr["bus"], V=arr["V"], Ybus=arr["Ybus"], Yf=arr["Yf"], Yt=arr["Yt"]), rec["vdl"])
+        if all(not isinstance(v, cq.Err) for v in real.values()):
+            dstd = max(abs(real["VPypower"][i] - real["VNumba"][i]) for i in (0, 1))
+            dsing = max(abs(real["VSingle"][i] - real["VPypower"][i]) for i in (0, 1))
+            if dstd > 1e-9:
+                ctx.violation("spec", "pfsoln (pypower) and pfsoln (numba) give different slack P/Q on the same solution: %.3g" % dstd, sel_desc[-1])
+            if guard and dsing > 1e-5:
+                ctx.violation("spec", "pf_solution_single_slack differs from pfsoln by %.3g under its selection guard" % dsing, sel_desc[-1])
+            ctx.count("pfsoln_single_%s_guard_%s" % ("agrees" if dsing <= 1e-5 else "differs", guard))
+        for v in ("VPypower", "VNumba", "VSingle"):
+            val_terms.append("run_pfsoln %s %s %s" % (v, term, cq.b(rec["vdl"])))
+            val_impl.append(impl[v])
+            val_desc.append(dict(sel_desc[-1], variant=v))
+    sh_terms = [ps.shift_term(sc) for sc in _shift_cases] if with_shift else []
+    terms = sh_terms + sel_terms + val_terms
+    allm = ctx.coq_eval("c06p", "Base.QN Base.QC C06.Pfsoln C06.Shift", terms, shard=max(40, (len(terms) + 1) // 2), timeout=600)
+    if with_shift:
+        _corr_shift(ctx, allm[:len(sh_terms)])
+    model = allm[len(sh_terms):len(sh_terms) + len(sel_terms)]
+    for d, i, m in zip(sel_desc, sel_impl, model):
+        ctx.corr_checked += 1
+        name, g = m
+        if i != name:
+            ctx.disagreement("_get_numba_functions selects %s, model %s" % (i, name), d)
+        gp = d["ngen"] == 1 and not d["vdl"] and not d["dist"] and not d["shunt"]
+        if bool(g) != gp:
+            ctx.disagreement("guard G06s: python %s Coq %s" % (gp, g), d)
+    model = allm[len(sh_terms) + len(sel_terms):]
+    for d, i, m in zip(val_desc, val_impl, model):
+        ctx.corr_checked += 1
+        if isinstance(i, cq.Err) or isinstance(m, cq.Err):
+            if i != m:
+                ctx.disagreement("pfsoln variant %s: impl %r model %r" % (d["variant"], i, m), d)
+            continue
+        pg, qg, flows = m
+        ok = abs(float(pg) - i[0]) <= 1e-9 * max(1, abs(i[0])) and abs(float(qg) - i[1]) <= 1e-9 * max(1, abs(i[1]))
+        ok = ok and len(flows) == len(i[2]) and all(abs(float(a) - b) <= 1e-9 * max(1, abs(b)) for fr, ir in zip(flows, i[2]) for a, b in zip(fr, ir))
+        if not ok:
+            ctx.disagreement("pfsoln variant %s: impl PG %.12g QG %.12g, model PG %.12g QG %.12g (or branch flows differ)" % (
+                d["variant"], i[0], i[1], float(pg), float(qg)), d)
+
+
 def _corpus():
     out = []
     # radial feeder with the ext_grid at the last bus
@@ -442,26 +578,42 @@ def _corpus():
     pp.create_line_from_parameters(net, b[0], b[1], 1.0, 0.25, 0.125, 0.0, 0.5)
     pp.create_gen(net, b[1], p_mw=0.25, vm_pu=1.04)
     out.append((net, {"islands": 1, "eg_first": True, "chords": 0, "flavor": "no-pq"}))
+    # two 30-degree transformers from two HV buses to one LV bus: one of them closes a loop of the BFS tree (repaired: C06-bfsw-shift-chord)
+    net = pp.create_empty_network()
+    h0, h1 = pp.create_bus(net, 110.0), pp.create_bus(net, 110.0)
+    l2, l3 = pp.create_bus(net, 20.0), pp.create_bus(net, 20.0)
+    pp.create_ext_grid(net, h0)
+    pp.create_line_from_parameters(net, h0, h1, 1.0, 0.25, 0.125, 0.0, 0.5)
+    for hv in (h0, h1):
+        pp.create_transformer_from_parameters(net, hv, l2, sn_mva=25, vn_hv_kv=110.0, vn_lv_kv=20.0, vkr_percent=0.4, vk_percent=10.0,
+                                              pfe_kw=10.0, i0_percent=0.05, shift_degree=30.0)
+    pp.create_line_from_parameters(net, l2, l3, 1.0, 0.25, 0.125, 0.0, 0.5)
+    pp.create_load(net, l3, 1.0, 0.2)
+    out.append((net, {"islands": 1, "eg_first": True, "chords": 1, "flavor": "shiftmesh", "shift": [30.0, 30.0]}, {"calculate_voltage_angles": True}))
     return out
 
 
 def run(ctx):
     rng = ctx.rng
     bibc_cases = []
-    for net, meta in _corpus():
-        _one_net(ctx, rng, 99, bibc_cases, net=net, meta=meta)
+    del _shift_cases[:]
+    for item in _corpus():
+        _one_net(ctx, rng, 99, bibc_cases, net=item[0], meta=item[1], common=item[2] if len(item) > 2 else None)
         ctx.count("corpus")
     for k in range(ctx.n(40, 400)):
         _one_net(ctx, rng, k, bibc_cases)
     _corr_bibc(ctx, bibc_cases)
     _corr_dispatch(ctx)
     _corr_roots(ctx, rng)
+    _corr_pfsoln(ctx, rng, with_shift=True)
 
 
 def replay(ctx, rec):
     case = rec["case"]
+    del _shift_cases[:]
     net = pp.from_json_string(case["net"])
     bibc_cases = []
     _one_net(ctx, ctx.rng, 0, bibc_cases, net=net, meta=case.get("meta", {"islands": 1, "eg_first": True, "chords": 0}),
              common=case.get("common"))
     _corr_bibc(ctx, bibc_cases)
+    _corr_shift(ctx)
